@@ -48,6 +48,7 @@ META = dict(
 )
 
 _tr = {}
+_saved = set()
 
 
 def prepare(ctx):
@@ -190,7 +191,7 @@ def run(ctx):
         hook = "hook=1" in out
         ctx.note("counter hook (proposed_hooks/C25_stop_counter.diff) %s in this build" % ("present: exact stop points compared with the model" if hook else "absent: timing-based requests only"))
         trials = []
-        per = 8 if ctx.quick else 40
+        per = 8 if ctx.quick else 14
         for k, it in enumerate(insts):
             trials.append((k, "none", "-", 0))
             trials.append((k, "pre", "local", 0))
@@ -202,36 +203,54 @@ def run(ctx):
                     trials.append((k, "spin", which, logu(ctx.rng, 30_000_000)))
                 else:
                     trials.append((k, "us", which, logu(ctx.rng, us_hi)))
-        res = run_trials(ctx, h, paths, trials)
+        res = run_trials(ctx, h, paths, trials, insts)
         if res is None:
             return
-        judge(ctx, insts, trials, res, atomic)
+        judge(ctx, insts, trials, res, atomic, paths)
         _lap(ctx, "timed-trials")
         if hook:
             N = {}
             for t, r in zip(trials, res):
                 if t[1] == "none":
                     N[t[0]] = int(r["polls"])
-            ptr = []
+            ptr = [(k, "none", "-", 0) for k in range(len(insts))] * 2
             for k, it in enumerate(insts):
                 n0 = N.get(k, 0)
-                pts = {0, 1, 2, max(0, n0 - 2), max(0, n0 - 1), n0, n0 + 1} | {ctx.rng.randrange(n0 + 3) for _ in range(6 if ctx.quick else 30)}
+                pts = {0, 1, 2, max(0, n0 - 2), max(0, n0 - 1), n0, n0 + 1} | {ctx.rng.randrange(n0 + 3) for _ in range(6 if ctx.quick else 14)}
                 for n in sorted(pts):
                     ptr.append((k, "poll", ctx.rng.choice(["local", "global"]), n))
-            pres = run_trials(ctx, h, paths, ptr)
+            ptr += [(k, "none", "-", 0) for k in range(len(insts))]
+            pres = run_trials(ctx, h, paths, ptr, insts)
             if pres is not None:
-                judge(ctx, insts, ptr, pres, atomic)
+                judge(ctx, insts, ptr, pres, atomic, paths)
+                # the undisturbed run must be the same run every time for the closed form to apply
+                Ns = {}
+                for t, r in zip(ptr, pres):
+                    if t[1] == "none":
+                        Ns.setdefault(t[0], set()).add(int(r["polls"]))
+                unstable = sorted(k for k, s in Ns.items() if len(s) > 1)
+                if unstable:
+                    ctx.count("instances-with-history-dependent-run", len(unstable))
+                    ctx.note("%d of %d instances (%s) do not repeat their own undisturbed run inside one process (poll counts e.g. %s): "
+                             "exact prediction skipped for them, per-trial consistency still checked. Cause seen in the source: process-wide "
+                             "static counters (LASolver::shouldTryCutFromProof, Enode::cgid_ctr) - the C24 findings" % (
+                                 len(unstable), len(insts), ", ".join(sorted({insts[k]["family"] for k in unstable})), sorted(Ns[unstable[0]])))
                 m = {"sat": "T", "unsat": "F", "unknown": "U"}
-                rq = ["predict %d %s %d" % (N.get(t[0], 0), m[insts[t[0]]["ref"]], t[3]) for t in ptr]
+                pt = [(t, r) for t, r in zip(ptr, pres) if t[1] == "poll"]
+                rq = ["predict %d %s %d" % (min(Ns[t[0]]), m[insts[t[0]]["ref"]], t[3]) for t, _ in pt]
                 rc, pout = vlib.sh(exe, input="\n".join(rq) + "\n", timeout=600)
                 pl = pout.strip().split("\n")
-                for t, r, p in zip(ptr, pres, pl):
-                    if m.get(r["r1"]) != p:
-                        ctx.tie_broken("stop-prediction", "instance %s (%d polls, %s): request visible at poll %d gives %s, the model predicts %s" % (
-                            insts[t[0]]["family"], N.get(t[0], 0), insts[t[0]]["ref"], t[3], r["r1"], p), dict(instance=insts[t[0]]["text"], poll=t[3]))
-                    elif r["r1"] == "unknown" and int(r["polls"]) not in (t[3] + 1, t[3] + 2):
-                        ctx.tie_broken("stop-prediction-polls", "request visible at poll %d: %s polls until return, the model allows %d or %d" % (
-                            t[3], r["polls"], t[3] + 1, t[3] + 2))
+                for (t, r), p in zip(pt, pl):
+                    n, polls, fam = t[3], int(r["polls"]), insts[t[0]]["family"]
+                    # stop_effective / stop_not_seen, per trial: seen at poll n <=> more than n polls happened
+                    if r["r1"] == "unknown" and polls not in (n + 1, n + 2):
+                        ctx.tie_broken("stop-prediction-polls", "%s: request visible at poll %d, unknown after %d polls; the model allows %d or %d" % (fam, n, polls, n + 1, n + 2))
+                    if r["r1"] in ("sat", "unsat") and polls > n:
+                        ctx.tie_broken("stop-seen-but-definitive", "%s: the request was raised at poll %d (%d polls done) and check() still answered %s; "
+                                       "stop_effective says unknown" % (fam, n, polls, r["r1"]), dict(instance=insts[t[0]]["text"], poll=n))
+                    if t[0] not in unstable and m.get(r["r1"]) != p:
+                        ctx.tie_broken("stop-prediction", "instance %s (%s polls, %s): request visible at poll %d gives %s, the model predicts %s" % (
+                            fam, sorted(Ns[t[0]]), insts[t[0]]["ref"], n, r["r1"], p), dict(instance=insts[t[0]]["text"], poll=n))
             _lap(ctx, "poll-trials")
 
         # ---- the flags as memory locations: ThreadSanitizer ---------------------------------------------------
@@ -298,15 +317,35 @@ def report_races(ctx, reps, how, seen, atomic):
             rp["kind"], "; ".join(rp["frames"]) or rp["location"], how), dict(how=how, env=conclib.TSAN_ENV, report=rp["text"]))
 
 
-def run_trials(ctx, h, paths, trials):
-    inp = "".join(("%d none\n" % t[0]) if t[1] == "none" else ("%d %s %s %d\n" % t) for t in trials)
+def trial_line(t):
+    return ("%d none\n" % t[0]) if t[1] == "none" else ("%d %s %s %d\n" % t)
+
+
+def save_run(name, paths, trials, upto):
+    """everything needed to repeat a harness process: the instance files and the trial list up to the failing trial"""
+    d = os.path.join(vlib.VERIF, "replays", "C25", name)
+    if name in _saved or len(_saved) >= 8:
+        return "see %s (first occurrence kept)" % d
+    _saved.add(name)
+    shutil.rmtree(d, ignore_errors=True)
+    os.makedirs(d)
+    for p in paths:
+        shutil.copy(p, d)
+    with open(os.path.join(d, "trials.txt"), "w") as f:
+        f.write("".join(trial_line(t) for t in trials[:upto + 1]))
+    return "build/harness/h_stop run %s/i*.smt2 < %s/trials.txt   (the last line of the output is the failing trial)" % (d, d)
+
+
+def run_trials(ctx, h, paths, trials, insts):
+    inp = "".join(trial_line(t) for t in trials)
     rc, out = vlib.sh([h, "run"] + paths, input=inp, timeout=3000)
     lines = [l for l in out.split("\n") if l.startswith("trial ")]
     if rc != 0 or len(lines) != len(trials):
         done = len(lines)
         bad = trials[done] if done < len(trials) else None
-        ctx.violation("stop:crash", "h_stop died (rc=%s) after %d of %d trials%s: %s" % (
-            rc, done, len(trials), (" in trial %s" % (bad,)) if bad else "", out[-300:]), dict(rc=rc, trial=bad, out=out[-2000:]))
+        how = save_run("crash", paths, trials, min(done, len(trials) - 1))
+        ctx.violation("stop:crash:%s" % (insts[bad[0]]["family"] if bad else "-"), "h_stop died (rc=%s) after %d of %d trials%s: %s" % (
+            rc, done, len(trials), (" in trial %s" % (bad,)) if bad else "", out[-300:]), dict(rc=rc, trial=bad, out=out[-2000:], how=how))
         return None
     res = []
     for l in lines:
@@ -315,9 +354,9 @@ def run_trials(ctx, h, paths, trials):
     return res
 
 
-def judge(ctx, insts, trials, res, atomic):
+def judge(ctx, insts, trials, res, atomic, paths):
     sticky = 0
-    for t, r in zip(trials, res):
+    for idx, (t, r) in enumerate(zip(trials, res)):
         it = insts[t[0]]
         ref = it["ref"]
         stopped = t[1] != "none"
@@ -325,8 +364,9 @@ def judge(ctx, insts, trials, res, atomic):
         ctx.case(key="%s|%s" % (it["text"], t[1:]), nontrivial=stopped, kind=kind,
                  sample=dict(family=it["family"], reference=ref, trial="%s %s %s" % t[1:], first=r["r1"], second=r["r2"], polls=r["polls"])
                  if (r["r1"] == "unknown" and t[1] in ("spin", "us", "poll")) else None)
-        rep = dict(instance=vlib.write_replay("C25", "inst_%s.smt2" % it["family"], it["text"]) if (r["r1"] not in ("unknown", ref) or r["r2"] not in ("unknown", ref)) else None,
-                   trial="%d %s %s %d" % t, result=r, reference=ref, how="build/harness/h_stop run <instance> <<< '0 %s %s %d'" % t[1:])
+        wrong = r["r1"] not in ("unknown", ref) or r["r2"] not in ("unknown", ref) or "bad" in (r["m1"], r["m2"])
+        rep = dict(trial="%d %s %s %d" % t, result=r, reference=ref, z3=it.get("z3"),
+                   how=save_run("wrong_%s_%s" % (it["family"], t[1]), paths, trials, idx) if wrong else None)
         if t[1] == "none":
             if r["r1"] != ref:
                 ctx.tie_broken("reference-answer", "harness without any request answers %s, the binary %s (%s)" % (r["r1"], ref, it["family"]))
